@@ -382,6 +382,8 @@ def _b_len(interp, args, kwargs):
         raise Unsupported("len of symbolic set")
     if v is None:
         raise PyRaise("TypeError", "object of type 'NoneType' has no len()")
+    if isinstance(v, sym.PList) and v.base is None:
+        return len(v.tail)
     raise Unsupported(f"len of {type(v).__name__}")
 
 
